@@ -6,10 +6,10 @@
    Invariant: the verdict is ok / skip, or the (diagnosis, class) pair is one of the classes listed in
    known_findings.json for C09 -- i.e. on the small machine the formulas deviate from correct rounding ONLY where
      * the bias is added in floating point and rounds          (nearest / tie_to_pos_inf, float source, "bias_rounds")
-     * tie_to_pos_inf truncates a negative float after biasing  (float -> scaled, negative, non-tie)
-     * neg_inf truncates a negative float                       (float -> scaled, negative)
      * the integer bias leaves the source representation        (scaled -> scaled, "bias_overflows")
-     * decimal scales are shifted by bits                        (scaled -> scaled, radix 10, tie_to_pos_inf / neg_inf). *)
+     * decimal scales are shifted by bits                        (scaled -> scaled, radix 10, tie_to_pos_inf / neg_inf).
+   (Until the two "fix:" commits of round 8 the float -> scaled conversions under tie_to_pos_inf / neg_inf truncated negative
+   values toward zero; the model follows the repaired code and TLC now shows the absence of those two classes here.) *)
 EXTENDS SemRounding, AsCodedRConv, TLC
 
 CONSTANTS P, PL, Wd, ELow, EMax, DestIdx      \* (TLC configuration files take no negative numbers)
@@ -83,8 +83,6 @@ Spec == Init /\ [][Next]_vars
 Known ==
     /\ Len(cls) = 8
     /\ \/ cls[2] \in {"nearest", "tie_to_pos_inf"} /\ cls[7] = "bias_rounds" /\ diag \in {"wrong_value", "ub"}
-       \/ cls[2] = "tie_to_pos_inf" /\ cls[4] = "scaled" /\ cls[5] = "neg" /\ cls[6] = "nontie" /\ cls[7] = "bias_exact" /\ diag = "wrong_value"
-       \/ cls[2] = "neg_inf" /\ cls[4] = "scaled" /\ cls[5] = "neg" /\ cls[7] = "bias_exact" /\ diag = "wrong_value"
        \* scaled sources: <<"RConv", tag, "scaled", "scaled", sign, tie, "bias_overflows"/"bias_fits", "r2"/"r10">>
        \/ cls[3] = "scaled" /\ cls[2] \in {"nearest", "tie_to_pos_inf"} /\ cls[7] = "bias_overflows" /\ diag \in {"wrong_value", "ub"}
        \/ cls[3] = "scaled" /\ cls[2] \in {"tie_to_pos_inf", "neg_inf"} /\ cls[7] = "bias_fits" /\ cls[8] = "r10" /\ diag = "wrong_value"
